@@ -281,7 +281,7 @@ func checkC11(tier string) {
 				if two && len(cur) < 2 {
 					continue
 				}
-				if len(cur) >= 2 && (len(cur) == 2 || tier == "thorough") && cur[0].plugin != "Clone" && cur[0].plugin != "DeepCopy" {
+				if len(cur) >= 2 && (len(cur) == 2 || (tier == "thorough" && len(cur) == 3)) && cur[0].plugin != "Clone" && cur[0].plugin != "DeepCopy" {
 					pkgs = append(pkgs, c11pkg{calls: append([]c11call(nil), cur...), twoFiles: two, late: true})
 					pkgs = append(pkgs, c11pkg{calls: append([]c11call(nil), cur...), twoFiles: two, inner: true})
 				}
@@ -484,7 +484,7 @@ func checkC11(tier string) {
 	rep.Cov["evaluations"] = len(items)
 	rep.Cov["distinct_nontrivial"] = nontriv
 	rep.Cov["result_type_checks"] = typechecks
-	rep.Cov["rule"] = "state = one package: a sequence of up to k derive calls, each (plugin in {Equal, Compare}) x (name in {bare prefix, prefix+A, prefix+B}) x (argument type in three pairwise non-assignable named struct pointers), in one file or split over two, with or without user functions (func declarations, or package-level variables of function type) that are called and carry the first fresh names goderive would mint (deriveEqual_, deriveCompare_), from scratch or on top of the derived.gen.go an earlier run produced for the first call alone; and with every call after the first taking a derive call as its first argument (the clash only exists from the second pass on; sequences of length 2 [all lengths]); or being itself the argument of another derive call (renamed in pass 1, the outer call typed in pass 2); the alphabet also holds the curried one-argument form of Equal (a different argument list under the same name); plus all sequences up to k over Equal x {bare, A} x the same-named type T of two imported packages both named model; plus all sequences up to k over {Clone(*T1), Clone(*T2)} and DeepCopy x {bare, A} x {*T1, *T2} (Clone requests a DeepCopy helper itself); transition = one run of the real goderive on a fresh copy under one of the four flag combinations, exit status compared with the independently computed conflict/duplicate predicate, results of successful runs type-checked in-process and (for -dedup) checked for one function per plugin and parameter list; non-trivial = runs on packages with at least one clash"
+	rep.Cov["rule"] = "state = one package: a sequence of up to k derive calls, each (plugin in {Equal, Compare}) x (name in {bare prefix, prefix+A, prefix+B}) x (argument type in three pairwise non-assignable named struct pointers), in one file or split over two, with or without user functions (func declarations, or package-level variables of function type) that are called and carry the first fresh names goderive would mint (deriveEqual_, deriveCompare_), from scratch or on top of the derived.gen.go an earlier run produced for the first call alone; and with every call after the first taking a derive call as its first argument (the clash only exists from the second pass on; sequences of length 2 [2 and 3]); or being itself the argument of another derive call (renamed in pass 1, the outer call typed in pass 2); the alphabet also holds the curried one-argument form of Equal (a different argument list under the same name); plus all sequences up to k over Equal x {bare, A} x the same-named type T of two imported packages both named model; plus all sequences up to k over {Clone(*T1), Clone(*T2)} and DeepCopy x {bare, A} x {*T1, *T2} (Clone requests a DeepCopy helper itself); transition = one run of the real goderive on a fresh copy under one of the four flag combinations, exit status compared with the independently computed conflict/duplicate predicate, results of successful runs type-checked in-process and (for -dedup) checked for one function per plugin and parameter list; non-trivial = runs on packages with at least one clash"
 	rep.Cov["bound"] = fmt.Sprintf("all call sequences of length 1..%d over an 18-call alphabet x {one file, two files} x {no user functions, user functions} x {from scratch, after an earlier run on the first call} = %d package states x 4 flag sets", kmax, states)
 	rep.Cov["distinct_outcomes"] = outcomes
 	rep.Cov["exhaustive"] = true
